@@ -36,6 +36,30 @@ def run(ctx):
     r66(ctx, prog)
 
 
+def char_case(br):
+    """which character class a path established for the item yielded by `next()`: the code point it was found equal to
+    (switch on the item, or an `item == 'x'` comparison that held), 'other' when only inequalities / the default edge were taken,
+    None when the item was never inspected. Returns (case, item term)."""
+    case = None
+    item = None
+    for v, t in br:
+        if v[0] == 'proj' and 'next' in fmt(v):
+            item = v
+            if t[0] == 'c':
+                return t[1], v
+            case = 'other'
+        elif v[0] == 'app' and v[1] in ('binop:Eq', 'binop:Ne') and len(v[2]) == 2:
+            a, b = v[2]
+            for x, y in ((a, b), (b, a)):
+                if x[0] == 'proj' and 'next' in fmt(x) and y[0] == 'c' and isinstance(y[1], str):
+                    item = x
+                    held = (t != C(0)) if v[1] == 'binop:Eq' else (t == C(0))
+                    if held:
+                        return ord(y[1]), x
+                    case = 'other'
+    return case, item
+
+
 def payload_branch(eff, term_pred):
     """list of (value compared, taken) for switches on a char payload"""
     return [(v, t) for v, t in branches_of(eff) if term_pred(v)]
@@ -51,12 +75,11 @@ def r61(ctx, prog):
     for ret, eff in ps:
         br = branches_of(eff)
         some = [t for v, t in br if fmt(v).startswith('discriminant(') and 'next' in fmt(v)]
-        chars = [t for v, t in br if v[0] == 'proj' and 'next' in fmt(v)]
+        case, _item = char_case(br)
         if some and some[0] != C(1):
             key = 'end-of-input'
-        elif chars:
-            t = chars[0]
-            key = t[1] if t[0] == 'c' else 'other'
+        elif case is not None:
+            key = case
         else:
             key = '?'
         table.setdefault(key, []).append(ret)
@@ -89,15 +112,15 @@ def r62(ctx, prog):
     for ret, eff in ps:
         br = branches_of(eff)
         some = [t for v, t in br if fmt(v).startswith('discriminant(') and 'next' in fmt(v)]
-        chars = [(v, t) for v, t in br if v[0] == 'proj' and 'next' in fmt(v)]
+        case, item = char_case(br)
         pushes = [e[2] for e in eff if not e[0].startswith('<') and e[0].split('::')[-1] == 'push']
         if some and some[0] != C(1):
             key = 'end-of-input'
-        elif chars:
-            key = chars[0][1][1] if chars[0][1][0] == 'c' else 'other'
+        elif case is not None:
+            key = case
         else:
             key = '?'
-        seen.setdefault(key, []).append((ret, pushes, chars[0][0] if chars else None))
+        seen.setdefault(key, []).append((ret, pushes, item))
     tok = prog.adt(tables.TOKEN)
     # closing quote
     good = len(seen.get(Q, [])) == 1 and is_adt(seen[Q][0][0], 'result::Result', 'Ok') and 'Token::String($result)' in fmt(seen[Q][0][0]) and not seen[Q][0][1]
